@@ -83,6 +83,9 @@ func WindowAlignment(p *load.Program, run *report.Run, pkgs []string, files map[
 				if obj == nil || !batchSized(info, c.fd, obj) {
 					return
 				}
+				if obj.Pos() >= fs.Body.Pos() && obj.Pos() <= fs.Body.End() {
+					return // declared inside the window loop: it belongs to one window
+				}
 				if !seen[obj] {
 					seen[obj] = true
 					nseq++
